@@ -24,7 +24,9 @@ NOT decided: round trip through MessageView (value-level).
 
 ASSUMPTIONS = ['slice::sort_by_key is stable', 'ToRoughTLV impls of the leaf types write exactly rough_tlv_len() bytes']
 
-FLOORS = {'R11.1': 9, 'R11.2': 5, 'R11.3': 9, 'R11.4': 5, 'R11.5': 6}
+FLOORS = {'R11.1': 9, 'R11.2': 5, 'R11.3': 10, 'R11.4': 5, 'R11.5': 6}
+
+from engine.woodlint.linear import int_range  # noqa: E402
 
 MW = 'rough_tlv::encoder::MessageWrapper'
 I32MAX = 2**31 - 1
@@ -233,6 +235,19 @@ def r11_3(cx):
     a = count.arg(1)
     okc = any(is_call(x, 'to_le_bytes') and x.strip().args[0].strip().kind == 'call' and x.strip().args[0].strip().op.endswith('::len') for x in a.walk() if x.kind == 'call' and x.op.endswith('to_le_bytes'))
     cx.check(okc, 'count-value', fn, count.loc(), '(elements.len() as u32).to_le_bytes()', fail_detail='the count written is %s' % show(a)[:100])
+    # every integer conversion on the way to the sink keeps 32 bits: the count and the lengths are below 2^31 (R11.1), so
+    # `as u32` is exact, while a detour through a narrower type (`as u8 as u32`) truncates counts / lengths of 256 and more
+    narrow = []
+    ncast = 0
+    for f in [fn] + list(prog.closures_of(fn)):
+        for pos, st in f.statements():
+            if st['k'] == 'assign' and st['rv']['k'] == 'cast' and st['rv']['ck'] == 'IntToInt':
+                ncast += 1
+                rd = int_range(st['rv']['ty'])
+                if not rd or rd[1] < 2**31 - 1:
+                    narrow.append('as %s at %s' % (st['rv']['ty'], f.loc(pos.bb, pos.idx)))
+    cx.check(ncast >= 3 and not narrow, 'casts-keep-32-bits', fn, None, '%d integer casts in encode, each to a type that holds every value up to i32::MAX' % ncast,
+             fail_detail='the count or a length passes through a type narrower than 32 bits (%s): values of 256 / 65536 and more are truncated in the header' % narrow)
     # (the accumulator is an Option<u32> or any private two-variant enum with one empty and one u32-carrying variant)
     def _empty_index(st):
         if st['rv']['variant'] == 'Some':
